@@ -31,6 +31,13 @@ func main() {
 		fmt.Println(string(b))
 	case "trace":
 		cmdTrace(os.Args[2:])
+	case "prewarm":
+		// Build garble-sim from /repo and the quick-tier std templates, so that the
+		// first check after a fresh restore does not pay for them.
+		if err := checks.Prewarm("quick"); err != nil {
+			fmt.Fprintln(os.Stderr, "prewarm failed:", err)
+			os.Exit(2)
+		}
 	case "check":
 		fs := flag.NewFlagSet("check", flag.ExitOnError)
 		tier := fs.String("tier", "quick", "quick|thorough")
